@@ -47,20 +47,20 @@ def gen_op(rng, w, first, hardlinks):
         return ['rename', d, ex(), rpath(rng)]
     if k < 0.64:
         return ['swap', d, ex(), ex()]
-    if k < 0.72:
+    if k < 0.71:
         return ['move', d, ex(), 'd%d' % rng.randint(1, nd), rpath(rng)]
-    if k < 0.81:
+    if k < 0.79:
         p = ex()
         # cp -p: same path on another disk (path match) or same base name elsewhere (name match)
         q = p if rng.random() < 0.6 else rng.choice(DIRS) + p.rsplit('/', 1)[-1]
         return ['copy', d, p, 'd%d' % rng.randint(1, nd), q]
-    if k < 0.83:
+    if k < 0.815:
         return ['touch', d, ex()]
-    if k < 0.845:
+    if k < 0.84:
         return ['resize_keepm', d, ex(), rng.choice([1, 700, 1024, 3000])]
     if k < 0.86:
         return ['restore', d, ex()]
-    if k < 0.875:
+    if k < 0.885:
         return ['samestamp', d, ex(), 'd%d' % rng.randint(1, nd), rng.choice(DIRS) + rng.choice(['zz', 'yy.q'])]
     if k < 0.91:
         return ['symlink', d, rng.choice(DIRS) + rng.choice(['a', 'ln', 'lm']), rng.choice(['a', '../b', 'nowhere', 'da'])]
@@ -153,6 +153,7 @@ class Hist:
         self.ncmd = 0
         self.nmodel = 0
         self.counts = {}
+        self.pending_drift = None
         self.stats = {'diff2': 0, 'diff0': 0, 'inode_reuse': 0, 'steps': 0, 'partial': 0, 'invisible': 0}
         self.seen_inodes = {}
 
@@ -201,9 +202,9 @@ class Hist:
         if pred is not None and cnt is not None:
             self.nmodel += 1
             if pred['counters'] != cnt or pred['rc'] != r.rc:
-                self.drift('drift_diff', 'the scan model predicts counters %s exit %d, the real diff reports %s exit %d' % (pred['counters'], pred['rc'], cnt, r.rc),
-                           model=pred['counters'], real=cnt, request=pred['request'][:6000])
-                return False
+                # reported (as MODEL-DRIFT) only if the real run goes on to satisfy every oracle of this step
+                c11_model.note_drift(self, 'drift_diff', 'the scan model predicts counters %s exit %s, the real diff reports %s exit %d' % (pred['counters'], pred['rc'], cnt, r.rc),
+                                     model=pred['counters'], real=cnt, request=pred['request'][:6000])
             for k, v in cnt.items():
                 self.counts[k] = self.counts.get(k, 0) + v
         if self.cfg['both_scans']:
@@ -357,8 +358,8 @@ def main(tier, replay=None):
         rp = json.load(open(replay))['replay']
         cfgs = [rp['config']]
     else:
-        cfgs = configs(rng, 12 if tier == 'quick' else 60)
-    nsteps = 4 if tier == 'quick' else 6
+        cfgs = configs(rng, 40 if tier == 'quick' else 200)
+    nsteps = 5 if tier == 'quick' else 7
     import concurrent.futures as cf
 
     def one(cfg):
